@@ -29,6 +29,9 @@ var thoroughTargets = map[string][]string{
 	"C15": {"linux/arm64"}, "C16": {"linux/arm64"}, "C17": {"linux/arm64"}, "C18": {"linux/arm64"},
 }
 
+// ThoroughTargets: the extra targets of the thorough tier for prop.
+func ThoroughTargets(prop string) []string { return thoroughTargets[prop] }
+
 // Thorough repeats the property's rules under further build contexts and runs the positive controls:
 // every seeded variant under /verif/seeded that this property's check is recorded to detect must still be
 // detected when its patch is applied to a scratch copy of the current tree.
